@@ -2,6 +2,8 @@ import Driver.Util
 import LiquidVerif.Model.Inherit
 import LiquidVerif.Model.InheritSpec
 import LiquidVerif.Model.InheritParse
+import LiquidVerif.Model.InheritFlat
+import LiquidVerif.Model.InheritAssign
 open Lean LiquidVerif.Inherit
 
 namespace Driver.C18
@@ -93,6 +95,56 @@ def handleEndblock (args : List Json) : Json :=
     | _, _ => jerr "bad-args"
   | _ => jerr "bad-args"
 
+/-- Liquid source of an annotation-free plain template (raise nodes print a marker) -/
+partial def srcPlain : Plain → String
+  | .text s => s
+  | .var x => "{{ " ++ x ++ " }}"
+  | .loop v n body => "{% for " ++ v ++ " in (1.." ++ toString n ++ ") %}" ++ String.join (body.map srcPlain) ++ "{% endfor %}"
+  | .scope _ body => String.join (body.map srcPlain)
+  | .outer body => String.join (body.map srcPlain)
+  | .raise e => "<!" ++ errName e ++ ">"
+
+/-- `["flatsyn", limit, [[tops]… leaf first], data]` → render of the syntactically flattened template, whether it
+is finite / hygienic, and the Liquid source of the annotation-free template -/
+def handleFlatSyn (args : List Json) : Json :=
+  match args with
+  | [lim, chain, data] =>
+    let ts := (asArr? chain).bind (mapM? (fun j => ((asArr? j).bind (mapM? parseTop)).map (fun x => (⟨x⟩ : Template))))
+    match asNat? lim, ts, parseData data with
+    | some lim, some ts, some data =>
+      let fl := flattenSyn lim ts
+      Json.mkObj [("out", outJson (renderPlains none data fl)),
+                  ("finite", Json.bool (finiteWithin lim ts)),
+                  ("hygienic", Json.bool (hygienics fl)),
+                  ("src", jstr (String.join ((eraseScopes fl).map srcPlain)))]
+    | _, _, _ => jerr "bad-args"
+  | _ => jerr "bad-args"
+
+/-- items with assignment: `["t",s] ["v",x] ["a",x,s] ["s"] ["b",name,[items]]` -/
+partial def parseAItem (j : Json) : Option AItem := do
+  match ← asArr? j with
+  | [.str "t", s] => pure (.text (← asStr? s))
+  | [.str "v", x] => pure (.var (← asStr? x))
+  | [.str "a", x, s] => pure (.assign (← asStr? x) (← asStr? s))
+  | [.str "s"] => pure .super
+  | [.str "b", name, body] =>
+    let items ← (asArr? body).bind (mapM? parseAItem)
+    pure (.block (← asStr? name) items)
+  | _ => none
+
+/-- `["assign", limit, [[items]… leaf first], data]` → output of the chain (the root's probes show the base locals) -/
+def handleAssign (args : List Json) : Json :=
+  match args with
+  | [lim, chain, data] =>
+    let ts := (asArr? chain).bind (mapM? (fun j => (asArr? j).bind (mapM? parseAItem)))
+    match asNat? lim, ts, parseData data with
+    | some lim, some ts, some data =>
+      match arenderChain lim ts data with
+      | .ok (out, _) => Json.mkObj [("ok", jstr out)]
+      | .error e => Json.mkObj [("err", jstr (errName e))]
+    | _, _, _ => jerr "bad-args"
+  | _ => jerr "bad-args"
+
 def commands : List (String × (List Lean.Json → Lean.Json)) :=
-  [("inherit", handle), ("flatten", handleFlatten), ("endblock", handleEndblock)]
+  [("inherit", handle), ("flatten", handleFlatten), ("endblock", handleEndblock), ("flatsyn", handleFlatSyn), ("assign", handleAssign)]
 end Driver.C18
